@@ -39,6 +39,8 @@ LEVEL_TEXT = ("Symbolic execution of every validator on free integers / strings 
               "namespace: accepted values lie in the documented sets, everything else raises one of the exceptions argparse turns into exit "
               "status 2; main() hands exactly the parsed values to the right constructor, emits exactly (filtered) generate() output to the "
               "requested channel and nothing else; end-to-end runs tie the argparse contract to the real program.")
+TECHNIQUE = ("symbolic execution of the real Python source (AST-instrumented import, z3 terms), per-path SMT queries; bounded model "
+             "checking; end-to-end runs of the real command on 79 argument vectors validate the argparse contract (concrete, not the deciding step)")
 LEVEL_NOTE = "Trusted: z3, argparse contract, summaries of C06."
 CONTRACT = (argparse.ArgumentError, argparse.ArgumentTypeError, TypeError, ValueError)
 
